@@ -109,6 +109,32 @@ var subC09 = harness.NewSub("c09-reencode-stable", func(c c09Case, d harness.Dia
 	if !conv.EqualList(first, second.vals) {
 		return fmt.Errorf("the re-encoded datagram decodes to a different packet list (%d vs %d packets)", len(first), len(second.vals))
 	}
+	// the way a forwarder does it: one Unmarshal of the received buffer, one Marshal of the list.
+	// The packets may alias the received buffer; re-serialising them must neither change them
+	// nor produce other bytes than member-by-member encoding does.
+	buf := append(make([]byte, 0, len(c.B)+16), c.B...)
+	ps2, err2 := safeUnmarshal(buf)
+	if err2 != nil {
+		return fmt.Errorf("the datagram is accepted once and rejected the second time: %v", err2)
+	}
+	var all []byte
+	var merr error
+	if perr := harness.Guard(func() error { all, merr = rtcp.Marshal(ps2); return nil }); perr != nil {
+		return fmt.Errorf("rtcp.Marshal of the decoded list panicked: %v\ndatagram: %s", perr, hexs(c.B))
+	}
+	if merr != nil {
+		return fmt.Errorf("every decoded packet marshals alone but rtcp.Marshal of the list fails: %v", merr)
+	}
+	if !bytes.Equal(all, out) {
+		return fmt.Errorf("rtcp.Marshal of the decoded list differs from the concatenation of the members' encodings\nlist:    %s\nmembers: %s", hexs(all), hexs(out))
+	}
+	after, cerr := conv.FromPionList(ps2)
+	if cerr != nil {
+		return fmt.Errorf("HARNESS: %v", cerr)
+	}
+	if !conv.EqualList(first, after) {
+		return fmt.Errorf("re-serialising the decoded list with rtcp.Marshal changed the decoded packets themselves\ndatagram: %s", hexs(c.B))
+	}
 	return nil
 })
 
